@@ -94,7 +94,7 @@ func runOpCase(c *Case) string {
 	}
 	rel := probe.teardowns
 	_ = sub
-	return fmt.Sprintf("res %s trace=%s drops=%s steps=%s subs=%d rel=%d", c.id, joinOrDash(rec.trace), joinOrDash(rec.drops), joinOrDash(steps), probe.subs, rel)
+	return fmt.Sprintf("res %s trace=%s drops=%s steps=%s subs=%d rel=%d alias=%s", c.id, joinOrDash(rec.trace), joinOrDash(rec.drops), joinOrDash(steps), probe.subs, rel, rec.aliasCheck())
 }
 
 // ---------- generation ----------
